@@ -34,7 +34,7 @@ def main():
                   "source_commits": [], "add_only": True},
         "engines": [{"name": "coq-model+correspondence", "path": "/verif/harness/main.py",
                      "serves_properties": sorted(CLAIMS), "kind_free_text":
-                     "Coq 8.16 development (/verif/coq) holding the executable model and the theorems; Python harness that runs the real pams and the model (coqc/vm_compute on generated case files) on the same inputs, property monitors, evidence writer"}],
+                     "Coq 8.16 development (/verif/coq) holding the executable model and the theorems; Python harness that runs the real pams and the model (coqc/vm_compute on generated case files) on the same inputs, property monitors, two fail-closed Python-ast -> Gallina translators whose output is regenerated from /repo and re-proved on every run (C02, C03, C04, C15, C19), evidence writer"}],
         "checks": checks,
         "not_applicable": na,
         "notes": "Seven genuine defects were repaired in /repo by separate 'fix:' commits (see known_findings.json, DESIGN.md section 6).",
